@@ -40,6 +40,10 @@ def build_cases(tier):
                             ('(= in_2 0)', [], ('panic', 'divide by zero')), ('(and (not (= in_2 0)) (>= in_0 in_2))', [], ('panic', 'overflow'))]))
     C.append(T('bits_Rem32', [B], nd3 + 'println("r", bits.Rem32(hi, lo, y))',
                lambda inp: [('(not (= in_2 0))', [('r', ['(mod %s in_2)' % dv])], 'normal'), ('(= in_2 0)', [], ('panic', 'divide by zero'))]))
+    # the guards of Div32 for small y and hi in {y, y+1} (small, so that a guard that wrongly lets the call through reaches the end of the division quickly;
+    # the division itself is decided in the thorough tier): quotient overflow unless y == 0
+    C.append(T('bits_Div32_guards', [B], 'y := uint32(NondetRange(0, 0, 5))\nlo := uint32(NondetRange(1, 0, 3))\nd := uint32(NondetRange(2, 0, 1))\nq, r := bits.Div32(y+d, lo, y)\nprintln("d", q, r)',
+               lambda inp: [('(= in_0 0)', [], ('panic', 'divide by zero')), ('(not (= in_0 0))', [], ('panic', 'overflow'))]))
     # ---- sync/atomic natives vs their sequential specification
     A = 'import "sync/atomic"\n'
     C.append(T('atomic_int32', [A], 'v := NondetInt32(0)\nd := NondetInt32(1)\no := NondetInt32(2)\nn := NondetInt32(3)\nr1 := atomic.AddInt32(&v, d)\nr2 := atomic.SwapInt32(&v, o)\nok := atomic.CompareAndSwapInt32(&v, n, 7)\nr3 := atomic.LoadInt32(&v)\natomic.StoreInt32(&v, d)\nprintln("a", r1, r2, ok, r3, v)',
